@@ -468,6 +468,43 @@ def _run_one(args):
     return {"variant": name, "status": "ran", "fired": fired, "errors": errors, "constructs": constructs}
 
 
+REFACTOR_DIR = os.path.join(os.path.dirname(os.path.dirname(os.path.abspath(__file__))), "refactors")
+
+
+def refactor_overlay(root: str, d: str):
+    """whole-file overlay of an imported behaviour-preserving refactoring, or None when the files it replaces are no
+    longer the ones it was made from"""
+    import hashlib
+    import json
+    meta = json.load(open(os.path.join(d, "meta.json")))
+    ov = {}
+    for rel, sha in meta["base_sha256"].items():
+        cur = os.path.join(root, rel)
+        if sha is not None and (not os.path.exists(cur) or hashlib.sha256(open(cur, "rb").read()).hexdigest() != sha):
+            return None
+        ov[rel] = open(os.path.join(d, "files", rel)).read()
+    return ov
+
+
+def _run_refactor(args):
+    prop, d, root = args
+    from .check import Ctx, decide
+    name = "refactoring:" + os.path.basename(d.rstrip("/"))
+    ov = refactor_overlay(root, d)
+    if ov is None:
+        return {"variant": name, "status": "skipped", "why": "the files this refactoring replaces have changed"}
+    repo = Repo(root, ov)
+    ctx = Ctx(repo, "quick")
+    try:
+        _, results, violations, hits = decide(prop, "quick", repo=repo, ctx=ctx)
+    except AnalysisError as e:
+        return {"variant": name, "status": "ran", "fired": [], "errors": [str(e)[:200]], "constructs": []}
+    fired = sorted({f.rule for f in violations})
+    errors = [f"{r.rule}: {r.error}"[:200] for r in results if r.error]
+    constructs = [f"{f.rule}: {f.file}:{f.function}: {f.construct[:80]}" for f in violations][:6]
+    return {"variant": name, "status": "ran", "fired": fired, "errors": errors, "constructs": constructs}
+
+
 def run_for_property(prop: str) -> dict:
     from .props import PROPERTIES
     root = os.environ.get("TUCAN_REPO", "/repo")
@@ -497,7 +534,27 @@ def run_for_property(prop: str) -> dict:
             want = v.fires & rules
             if not (set(r["fired"]) & want):
                 disagreements.append(f"{v.name}: expected one of {sorted(want)} to fire, observed {r['fired']} errors {r['errors']}")
-    return {"summary": f"{n_fire} must-fire + {n_silent} must-stay-silent variants agreed, {n_skip} skipped, {len(disagreements)} disagreements",
+    # whole-module refactorings that keep behaviour: no rule of this property may report a finding on them
+    # (a rule may be unable to decide a heavily rewritten module; that is counted, not a disagreement)
+    import glob
+    rdirs = sorted(glob.glob(os.path.join(REFACTOR_DIR, "*", "")))
+    n_ref = n_undecided = 0
+    if rdirs:
+        with ProcessPoolExecutor(max_workers=min(16, len(rdirs))) as ex:
+            rout = list(ex.map(_run_refactor, [(prop, d, root) for d in rdirs]))
+        for r in rout:
+            r["expected"] = "no finding"
+            if r["status"] == "skipped":
+                n_skip += 1
+                continue
+            n_ref += 1
+            if r["fired"]:
+                disagreements.append(f"{r['variant']}: behaviour-preserving refactoring but {r['fired']} reported ({r['constructs'][:2]})")
+            elif r["errors"]:
+                n_undecided += 1
+        out += rout
+    return {"summary": f"{n_fire} must-fire + {n_silent} must-stay-silent variants agreed, {n_ref} refactorings without finding ({n_undecided} of them undecided), "
+                       f"{n_skip} skipped, {len(disagreements)} disagreements",
             "variants": out, "disagreements": disagreements}
 
 
